@@ -6,6 +6,7 @@ import (
 	"net/url"
 	"sort"
 	"strings"
+	"time"
 
 	"github.com/ory/fosite"
 
@@ -58,6 +59,7 @@ func mutateTok(v string, n int) string {
 // c09http: the HTTP face of introspection: caller authentication, hints,
 // required scopes, payload truthfulness, for every token of a history and mutants.
 func c09http(c *run.Ctx) {
+	c09LeanSession(c)
 	n := c.N(48, 4000)
 	c.Need("http_active_true", 1)
 	c.Need("http_caller_refused", 1)
@@ -313,4 +315,104 @@ func originOf(t *sim.Tok) string {
 		o += "-implicit"
 	}
 	return o + "/" + t.Kind
+}
+
+// leanSess is an integrator-supplied session type as found in the field: JSON-tagged with omitempty, so that a stored
+// session only carries what it has.
+type leanSess struct {
+	Exp  map[fosite.TokenType]time.Time `json:"exp,omitempty"`
+	User string                         `json:"user,omitempty"`
+	Sub  string                         `json:"sub,omitempty"`
+	Ext  map[string]interface{}         `json:"ext,omitempty"`
+}
+
+func (s *leanSess) SetExpiresAt(k fosite.TokenType, t time.Time) {
+	if s.Exp == nil {
+		s.Exp = map[fosite.TokenType]time.Time{}
+	}
+	s.Exp[k] = t
+}
+func (s *leanSess) GetExpiresAt(k fosite.TokenType) time.Time { return s.Exp[k] }
+func (s *leanSess) GetUsername() string                       { return s.User }
+func (s *leanSess) GetSubject() string                        { return s.Sub }
+func (s *leanSess) GetExtraClaims() map[string]interface{}    { return s.Ext }
+func (s *leanSess) Clone() fosite.Session {
+	if s == nil {
+		return nil
+	}
+	o := &leanSess{User: s.User, Sub: s.Sub}
+	if s.Exp != nil {
+		o.Exp = map[fosite.TokenType]time.Time{}
+		for k, v := range s.Exp {
+			o.Exp[k] = v
+		}
+	}
+	if s.Ext != nil {
+		o.Ext = map[string]interface{}{}
+		for k, v := range s.Ext {
+			o.Ext[k] = v
+		}
+	}
+	return o
+}
+
+// c09LeanSession: what the endpoint reports about a token is that token's own subject, username and extra claims, also
+// when the caller authenticates with a bearer token of another grant, the store unmarshals stored sessions into the
+// prototype it is handed (SQL-like store), and the integrator's session type omits empty fields.
+func c09LeanSession(c *run.Ctx) {
+	if !c.Mine(5) && c.NShards > 5 {
+		return
+	}
+	for _, hydrate := range []bool{true, false} {
+		w := world.New(world.Opts{Mode: world.Mode{DB: true, Hydrate: hydrate}, SessFactory: func(sub string) fosite.Session {
+			s := &leanSess{Sub: sub}
+			if sub != "" {
+				s.User = "login-of-" + sub
+				s.Ext = map[string]interface{}{"tenant": "tenant-of-" + sub}
+			}
+			return s
+		}})
+		a := world.Basic("conf-a", "secret-of-a")
+		az := w.Authorize(url.Values{"client_id": {"conf-a"}, "response_type": {"code"}, "scope": {"fosite offline"}, "state": {"state-0123456789"}, "redirect_uri": {"https://app-a.example/cb"}}, world.Consent{Subject: "user-9"})
+		ut := w.Token(url.Values{"grant_type": {"authorization_code"}, "code": {az.Params.Get("code")}, "redirect_uri": {"https://app-a.example/cb"}}, a)
+		cc1 := w.Token(url.Values{"grant_type": {"client_credentials"}, "scope": {"fosite"}}, a)
+		cc2 := w.Token(url.Values{"grant_type": {"client_credentials"}, "scope": {"fosite"}}, world.Basic("conf-b", "secret-of-b"))
+		if ut.Err != nil || cc1.Err != nil || cc2.Err != nil {
+			c.Inconcl("lean-session world could not issue tokens: " + world.ErrDetail(ut.Err) + world.ErrDetail(cc1.Err) + world.ErrDetail(cc2.Err))
+			continue
+		}
+		type probe struct {
+			name, token, bearer string
+			auth                world.Auth
+			sub, user, tenant   string
+		}
+		probes := []probe{
+			{"machine-token inspected by a caller holding a user's token", cc1.S("access_token"), ut.S("access_token"), world.Auth{}, "", "", ""},
+			{"machine-token inspected with client credentials", cc1.S("access_token"), "", a, "", "", ""},
+			{"user-token inspected by a caller holding a machine token", ut.S("access_token"), cc2.S("access_token"), world.Auth{}, "user-9", "login-of-user-9", "tenant-of-user-9"},
+			{"user-refresh-token inspected by a caller holding a machine token", ut.S("refresh_token"), cc2.S("access_token"), world.Auth{}, "user-9", "login-of-user-9", "tenant-of-user-9"},
+			{"machine-token inspected by a caller holding another machine token", cc2.S("access_token"), cc1.S("access_token"), world.Auth{}, "", "", ""},
+			{"machine-token inspected by a caller holding a user's token (again)", cc2.S("access_token"), ut.S("access_token"), world.Auth{}, "", "", ""},
+		}
+		for _, p := range probes {
+			out := w.IntrospectHTTP(url.Values{"token": {p.token}}, p.auth, p.bearer)
+			active, _ := out.JSON["active"].(bool)
+			c.Case(fmt.Sprintf("lean-session hydrate=%v %s active=%v", hydrate, p.name, active))
+			c.Count("c09_lean_session_probes", 1)
+			if !active || out.Intro == nil {
+				c.Violate(run.Violation{Kind: "http-inactive-but-live", Key: "http-inactive-but-live lean-session " + p.name, Detail: "body " + out.Body + " " + world.ErrDetail(out.Err)})
+				continue
+			}
+			gotSub, _ := out.JSON["sub"].(string)
+			gotUser, _ := out.JSON["username"].(string)
+			gotTenant, _ := out.JSON["tenant"].(string)
+			if ext, ok := out.JSON["ext"].(map[string]interface{}); ok && gotTenant == "" {
+				gotTenant, _ = ext["tenant"].(string)
+			}
+			if gotSub != p.sub || gotUser != p.user || gotTenant != p.tenant || out.Intro.GetAccessRequester().GetSession().GetSubject() != p.sub {
+				c.Violate(run.Violation{Kind: "payload", Key: "payload lean-session: " + p.name, Detail: fmt.Sprintf("hydrating store=%v: reported sub=%q username=%q tenant=%q, the token's own are sub=%q username=%q tenant=%q; body %s",
+					hydrate, gotSub, gotUser, gotTenant, p.sub, p.user, p.tenant, out.Body)})
+			}
+		}
+	}
 }
